@@ -264,8 +264,11 @@ func (r *Receiver) RunOnce(ctx context.Context, includingOwn bool) error {
 			continue // no change
 		}
 
-		if !includingOwn && inst == r.ownInstance {
-			// Own instance. We only want these during startup.
+		if !includingOwn && inst == r.ownInstance && !r.ignoredFilenames[lastNotified.FullName] {
+			// Own instance. We only want these during startup, unless the
+			// own snapshot we announced then turned out to be corrupt: the
+			// sync loop may still be waiting for our own snapshot, so treat
+			// it like any other instance until a good one was offered.
 			continue
 		}
 
